@@ -210,6 +210,17 @@ def r3_writers_complete(ctx, rule):
         ctx.ok(rule, OFO, 'the %d IP/EP/CP/LN writer loops emit every entry of the model' % n)
 
 
+def r10_keyspace_stateless(ctx, rule):
+    """The keyspace of a level is a function of the dataset it is computed on: the memo of _rec_calc_keyspace lives inside that
+    dataset (omen_trainer.grammar[ip]['keyspace_cache']); a module-level cache keyed without the dataset hands the counts of one
+    trained model to the next model trained in the same process (seed C18-g)."""
+    from . import c14
+    return c14.r8_loader_stateless(ctx, rule, rel='lib_trainer/omen/evaluate_password.py', floor=3,
+                                   why='a count cached at module level is keyed by (n-gram, length, level) only: a second dataset '
+                                       'trained in the same process (a test run, a script that trains several lists) re-uses the counts of '
+                                       'the first, so its saved keyspace no longer equals what its own model generates')
+
+
 def _cursor(ctx, rule):
     from . import c10
     return c10.r9_level_cursor_domain(ctx, rule)
@@ -227,7 +238,7 @@ def _passes(ctx, rule):
 
 def rules(tier):
     return [('C18.R1', r1_domain_guards), ('C18.R1b', r1b_recursive_count), ('C18.R2', r2_probability),
-            ('C18.R3', r3_writers_complete), ('C18.R4', c11.r3_cp_count), ('C18.R5', c11.r5_length_domain), ('C18.R6', _passes), ('C18.R7', c11.min_length_resolution), ('C18.R8', _prune), ('C18.R9', _cursor)]
+            ('C18.R3', r3_writers_complete), ('C18.R4', c11.r3_cp_count), ('C18.R5', c11.r5_length_domain), ('C18.R6', _passes), ('C18.R7', c11.min_length_resolution), ('C18.R8', _prune), ('C18.R9', _cursor), ('C18.R10', r10_keyspace_stateless)]
 
 
 META = {
